@@ -171,7 +171,17 @@ type Gen struct {
 	// LongMeta: about one metadata map in six carries a key longer than 255 bytes or a value longer than 65535 bytes
 	// (what the snapshot format's length fields cannot express; a partition holds them like any other item)
 	LongMeta bool
-	n        int
+	// ZeroId: member 0 of the id universe is the all-zero id (an id like any other)
+	ZeroId bool
+	n      int
+}
+
+// IdOf returns member j of the generator's id universe.
+func (g *Gen) IdOf(j int) uuid.UUID {
+	if g.ZeroId && j == 0 {
+		return uuid.UUID{}
+	}
+	return hx.Id(j)
 }
 
 // ShowMeta prints a metadata map with long strings abbreviated.
@@ -238,7 +248,7 @@ func (g *Gen) metaOf(single bool) map[string]string {
 }
 
 func (g *Gen) item() *pb.BatchItem {
-	return &pb.BatchItem{Id: hx.Id(g.Rng.Intn(g.Universe)).Bytes(), Value: g.vec(), Metadata: g.metaOf(false), Level: int32(g.Rng.Intn(g.Rng.Intn(4) + 1))}
+	return &pb.BatchItem{Id: g.IdOf(g.Rng.Intn(g.Universe)).Bytes(), Value: g.vec(), Metadata: g.metaOf(false), Level: int32(g.Rng.Intn(g.Rng.Intn(4) + 1))}
 }
 
 // Next generates one log entry. The notification id is fresh per entry, as a
@@ -246,7 +256,7 @@ func (g *Gen) item() *pb.BatchItem {
 func (g *Gen) Next() *Entry {
 	g.n++
 	c := &pb.PartitionChange{NotificationId: uuid.NewV4().Bytes()}
-	id := hx.Id(g.Rng.Intn(g.Universe))
+	id := g.IdOf(g.Rng.Intn(g.Universe))
 	desc := ""
 	switch r := g.Rng.Intn(100); {
 	case r < 30:
